@@ -235,6 +235,86 @@ fn deflection_flat_lists(rep: &Report) {
     }
 }
 
+/// `gridshift` on a list mixing a datum shift grid and a geoid: either refused, or every point gets the kind of
+/// correction (and the unit) of the grid that serves it - never a geoid height added to a longitude
+fn mixed_kind_lists(rep: &Report) {
+    let gd = GeoDeg { lat_s: 54., lat_n: 58., lon_w: 8., lon_e: 16., dlat: 1., dlon: 1. };
+    let gg = GeoDeg { lat_s: 56., lat_n: 60., lon_w: 12., lon_e: 20., dlat: 2., dlon: 2. };
+    let (datum, rdatum) = make_base(&gd, 2, 41);
+    let (geoid, rgeoid) = make_base(&gg, 1, 42);
+    let mut ctx = GridCtx::default();
+    ctx.add_grid("d.datum", datum);
+    ctx.add_grid("g.geoid", geoid);
+    for list in ["d.datum, g.geoid", "g.geoid, d.datum"] {
+        let def = format!("gridshift grids={list}");
+        rep.eval(1);
+        let Ok(op) = ctx.op(&def) else {
+            continue; // refused: fine
+        };
+        // one point served by the datum grid only, one by the geoid only
+        for (lon, lat, by_datum) in [(9.3f64, 55.2f64, true), (18.4, 59.1, false)] {
+            let (l, p) = (lon.to_radians(), lat.to_radians());
+            let mut d = [Coor4D([l, p, 100., 2000.])];
+            let n = ctx.apply(op, Fwd, &mut d).unwrap_or(usize::MAX);
+            let want = if by_datum {
+                let w = rdatum.at(l, p);
+                [l + w[0], p + w[1], 100.]
+            } else {
+                [l, p, 100. - rgeoid.at(l, p)[0]]
+            };
+            if n != 1 || (0..3).any(|k| (d[0][k] - want[k]).abs() > 1e-9) {
+                rep.violation(
+                    "gridshift on a list mixing datum and geoid grids applies the wrong kind of correction",
+                    json!({"def": def, "lon_deg": lon, "lat_deg": lat, "served_by": if by_datum { "d.datum" } else { "g.geoid" }, "count": n, "observed": d[0].0, "expected": want}),
+                );
+            }
+        }
+    }
+}
+
+/// First hit among grids, for points ON the border of the first grid: the shipped NTv2 file 5458.gsb (54-58N, 8-16E)
+/// followed by a second grid covering the same area with different values. A point on the closed border of the
+/// first grid is inside it, so the list must give what the first grid alone gives
+fn first_hit_on_ntv2_border(rep: &Report) {
+    let wd = crate::util::enter_private_workdir();
+    crate::catalog::install_grids(&wd);
+    first_hit_on_ntv2_border_in_workdir(rep);
+    Plain::clear_grids();
+    crate::util::leave_private_workdir(&wd);
+}
+
+fn first_hit_on_ntv2_border_in_workdir(rep: &Report) {
+    let mut ctx = Plain::new();
+    let (Ok(single), Ok(list)) = (ctx.op("gridshift grids=5458.gsb"), ctx.op("gridshift grids=5458.gsb, test.datum")) else {
+        rep.machinery_error("C08: the shipped grids 5458.gsb / test.datum cannot be used from the working directory".to_string());
+        return;
+    };
+    let mut pts: Vec<(f64, f64)> = Vec::new();
+    for k in 0..=8 {
+        pts.push((8. + k as f64, 58.)); // northern edge
+        pts.push((8. + k as f64, 54.)); // southern edge
+        pts.push((8.5 + k as f64 * 0.9, 58.));
+    }
+    for k in 0..=4 {
+        pts.push((16., 54. + k as f64)); // eastern edge
+        pts.push((8., 54. + k as f64)); // western edge
+        pts.push((16., 54.3 + k as f64 * 0.8));
+    }
+    pts.push((12., 56.)); // interior, for control
+    for (lon, lat) in pts {
+        rep.eval(1);
+        let mut a = [Coor4D::geo(lat, lon, 0., 0.)];
+        let mut b = a;
+        let (na, nb) = (ctx.apply(single, Fwd, &mut a).unwrap_or(usize::MAX), ctx.apply(list, Fwd, &mut b).unwrap_or(usize::MAX));
+        if na != 1 || nb != 1 || (a[0][0] - b[0][0]).abs() > 1e-12 || (a[0][1] - b[0][1]).abs() > 1e-12 {
+            rep.violation(
+                "a point on the border of the first grid of a list is served by a later grid",
+                json!({"list": "gridshift grids=5458.gsb, test.datum", "lat_deg": lat, "lon_deg": lon, "first_grid_alone": a[0].0, "list_gives": b[0].0, "counts": [na, nb]}),
+            );
+        }
+    }
+}
+
 /// lists of up to 3 overlapping grids in all orders, with the null grid
 fn grid_lists(rep: &Report) {
     let ga = GeoDeg { lat_s: 54., lat_n: 58., lon_w: 8., lon_e: 16., dlat: 1., dlon: 1. };
@@ -424,7 +504,8 @@ fn ntv2_trees(rep: &Report, outcomes: &Mutex<HashSet<u64>>) {
                                         close(g, d) || close(g, i) || containing.iter().any(|&k| close(g, k))
                                     }
                                 }
-                                (Ok(Some(g)), None) => !strict && close(g, i),
+                                // (a hair outside every grid: the value of any grid whose border is within rounding of the point)
+                                (Ok(Some(g)), None) => !strict && (close(g, i) || (0..n).any(|k| refs[k].contains(c[0], c[1], 1e-5) && close(g, k))),
                                 _ => false,
                             };
                             if !ok {
@@ -858,6 +939,14 @@ pub fn run(tier: Tier) -> Report {
     }
     grid_lists(&rep);
     match catch(|| deformation_grid_lists(&rep)) {
+        Ok(()) => {}
+        Err(p) => rep.violation(&format!("panic in a grid operator: {}", panic_class(&p)), json!({"panic": p})),
+    }
+    match catch(|| first_hit_on_ntv2_border(&rep)) {
+        Ok(()) => {}
+        Err(p) => rep.violation(&format!("panic in a grid operator: {}", panic_class(&p)), json!({"panic": p})),
+    }
+    match catch(|| mixed_kind_lists(&rep)) {
         Ok(()) => {}
         Err(p) => rep.violation(&format!("panic in a grid operator: {}", panic_class(&p)), json!({"panic": p})),
     }
